@@ -97,6 +97,11 @@ impl<'a> Ctx<'a> {
     }
     /// library panics recorded by the runtime become violations of clause `panic`
     pub fn check_panics(&mut self) {
+        let spins = self.sim.rt.spins.borrow().clone();
+        for t in spins {
+            let lib = if t.contains("/zsim/") || t == "app" || !t.contains('/') { "a task calling into the library" } else { "a library task" };
+            self.violation("spins_when_transport_yields", format!("{lib} ('{t}') kept polling a transport that had told it to yield ({} refusals within one poll of the task): the transport's cooperative budget was exhausted and it wakes its caller at once, as tokio does for a future driven by block_on; the call never returns to the executor, so it can never make progress", rt::net::COOP_SPIN_LIMIT));
+        }
         let panics = self.sim.rt.panics.borrow().clone();
         for p in panics {
             let in_harness = p.loc.contains("/zsim/") || p.loc.contains("/simrt/");
@@ -188,12 +193,38 @@ pub fn exec_case(def: &'static PropDef, mut spec: CaseSpec) -> RunReport {
         })
         .expect("spawn run thread");
     let limit = std::time::Duration::from_secs(WATCHDOG_S.with(|w| w.get()));
-    match rx.recv_timeout(limit) {
+    // hung = no scheduler step for `limit`; a run that keeps stepping is merely slow and gets 12x
+    // as long before it is given up (as a harness problem, not as a verdict about the library)
+    let started = std::time::Instant::now();
+    let mut last = (rt::PROGRESS.load(std::sync::atomic::Ordering::Relaxed), std::time::Instant::now());
+    let mut died = false;
+    let outcome: Result<RunReport, bool> = loop {
+        match rx.recv_timeout(std::time::Duration::from_millis(200)) {
+            Ok(r) => break Ok(r),
+            Err(std::sync::mpsc::RecvTimeoutError::Timeout) => {
+                let p = rt::PROGRESS.load(std::sync::atomic::Ordering::Relaxed);
+                if p != last.0 {
+                    last = (p, std::time::Instant::now());
+                }
+                if last.1.elapsed() >= limit {
+                    break Err(true);
+                }
+                if started.elapsed() >= limit * 12 {
+                    break Err(false);
+                }
+            }
+            Err(_) => {
+                died = true;
+                break Err(false);
+            }
+        }
+    };
+    match outcome {
         Ok(r) => {
             let _ = h.join();
             r
         }
-        Err(std::sync::mpsc::RecvTimeoutError::Timeout) => {
+        Err(true) => {
             let mut r = RunReport::default();
             r.hung = true;
             if let Some(sh) = &shared {
@@ -203,7 +234,13 @@ pub fn exec_case(def: &'static PropDef, mut spec: CaseSpec) -> RunReport {
             r.violations.push(Violation { key, detail: format!("the run stopped returning to the scheduler for {}s: a task is blocked for good inside a synchronous wait (on a single-threaded runtime the whole program stops), or loops without bound inside one poll", limit.as_secs()) });
             r
         }
-        Err(_) => {
+        Err(false) if !died => {
+            let mut r = RunReport::default();
+            r.hung = true; // the thread is abandoned, the process must be recycled
+            r.harness_errors.push(format!("case still stepping after {}s of wall clock: given up without a verdict", (limit * 12).as_secs()));
+            r
+        }
+        Err(false) => {
             let _ = h.join();
             let mut r = RunReport::default();
             r.harness_errors.push("run thread died outside the simulation".into());
